@@ -12,6 +12,12 @@
 //	blk:<tokhex>:<mid0>:<mid1>:<tag>     the peer answers block-wise in two blocks (only with bw = 1)
 //	blkc:<tokhex>:<mid0>:<mid1>:<tag>    the same; on the stream transport the peer sends a further CSM (Max-Message-Size only, no
 //	                                     Block-Wise-Transfer option) between the two blocks
+//	obs:<caller>:<tokhex>                cc.DoObserve (GET /status, Observe 0) in a goroutine with a caller-chosen token; it returns with the
+//	                                     first notification; later notifications are logged like messages for the default handler
+//	onote:<tokhex>:<mid>:<seq>:<tag>     the peer sends a notification (Observe seq): piggybacked if mid = @<caller>, else non-confirmable
+//	blkp:<tokhex>:<mid0>:<tag>           (udp, bw = 1) the peer is a state-less block-wise server: it sends block 0 of <tag>, then reads the
+//	                                     request for block 1 and answers it by that request's Uri-Path (/r: the rest of <tag>; any other
+//	                                     path: the rest of that resource's representation, `from-<path>`)
 //	pipe:<tok>=<tag>,<tok>=<tag>,…       (tcp) the peer writes these responses back to back in one write (pipelined answers)
 //
 // A tag of the form <name>*<n> stands for a payload of <name> followed by n dots (long frames); it is reported in the same form.
@@ -84,11 +90,14 @@ type caller struct {
 }
 
 type world struct {
-	mu      sync.Mutex
-	events  []string // dflt events in arrival order
-	callers map[int]*caller
-	order   []int
-	mids    map[string]int32 // token hex -> message id of the request that carried it (udp)
+	mu          sync.Mutex
+	events      []string // dflt events in arrival order
+	callers     map[int]*caller
+	order       []int
+	mids        map[string]int32 // token hex -> message id of the request that carried it (udp)
+	observe     func(req *pool.Message, f func(*pool.Message)) error
+	lastBlkPath string   // Uri-Path of the last request sent that carries Block2
+	carryTx     []string // tx events consumed in the middle of an op
 }
 
 func (w *world) logDflt(tok message.Token, body []byte) {
@@ -177,6 +186,53 @@ func (w *world) startDo(cc doer, id int, tok message.Token, typ string) {
 	}()
 }
 
+// startObs: cc.DoObserve with a caller-chosen token; the call returns with the first notification
+func (w *world) startObs(cc doer, id int, tok message.Token, udp bool) {
+	ctx, cancel := context.WithCancel(context.Background())
+	c := &caller{id: id, cancel: cancel, done: make(chan struct{})}
+	w.mu.Lock()
+	w.callers[id] = c
+	w.order = append(w.order, id)
+	w.mu.Unlock()
+	go func() {
+		defer close(c.done)
+		defer func() {
+			if r := recover(); r != nil {
+				c.res = fmt.Sprintf("ret:%d:panic", id)
+			}
+		}()
+		req := cc.AcquireMessage(ctx)
+		defer cc.ReleaseMessage(req)
+		req.SetCode(codes.GET)
+		req.SetToken(tok)
+		_ = req.SetPath("/status")
+		req.SetObserve(0)
+		if udp {
+			req.SetType(message.Confirmable)
+		}
+		n := 0
+		first := ""
+		err := w.observe(req, func(r *pool.Message) {
+			body, _ := r.ReadBody()
+			w.mu.Lock()
+			n++
+			if n == 1 {
+				first = lp.Hex(r.Token()) + ":" + tagOf(body)
+			} else {
+				w.events = append(w.events, "dflt:"+lp.Hex(r.Token())+":"+tagOf(body))
+			}
+			w.mu.Unlock()
+		})
+		if err != nil {
+			c.res = fmt.Sprintf("ret:%d:%s", id, errName(err))
+			return
+		}
+		w.mu.Lock()
+		c.res = fmt.Sprintf("ret:%d:ok:%s", id, first)
+		w.mu.Unlock()
+	}()
+}
+
 // collect returns the segment of observations since the last call.
 func (w *world) collect(tx []string) string {
 	var ev []string
@@ -217,8 +273,10 @@ func injective(ops []string) bool {
 			th = f[2]
 		case "peer":
 			th = f[2]
-		case "blk", "blkc":
+		case "blk", "blkc", "blkp", "onote":
 			th = f[1]
+		case "obs":
+			th = f[2]
 		default:
 			continue
 		}
@@ -306,10 +364,17 @@ func runUDP(t *testing.T, bw bool, ops []string) (out string) {
 						tx = append(tx, "tx:"+lp.Hex(m.Token()))
 					} else {
 						tx = append(tx, "txblk:"+lp.Hex(m.Token()))
+						if p, err := m.Path(); err == nil {
+							w.lastBlkPath = p
+						}
 					}
 				}
 			}
 			return tx
+		}
+		w.observe = func(req *pool.Message, f func(*pool.Message)) error {
+			_, err := cc.DoObserve(req, f)
+			return err
 		}
 		// a slow socket for empty acknowledgements (see ops gate / open)
 		var gmu sync.Mutex
@@ -388,6 +453,52 @@ func runUDP(t *testing.T, bw bool, ops []string) (out string) {
 					if err := cc.Process(nil, d); err != nil {
 						panic(err)
 					}
+				case f[0] == "obs" && len(f) == 3:
+					id, _ := strconv.Atoi(f[1])
+					tok := parseTok(f[2])
+					callerTok[id] = lp.Hex(tok)
+					lastDo = id
+					w.startObs(cc, id, tok, true)
+				case f[0] == "onote" && len(f) == 5:
+					tok := parseTok(f[1])
+					seq, _ := strconv.Atoi(f[3])
+					buf := make([]byte, 4)
+					n, _ := message.EncodeUint32(buf, uint32(seq))
+					obsOpt := message.Option{ID: message.Observe, Value: buf[:n]}
+					var d []byte
+					if strings.HasPrefix(f[2], "@") {
+						d = udpMsg(message.Acknowledgement, codes.Content, tok, resolveMid(f[2]), []byte(f[4]), obsOpt)
+					} else {
+						d = udpMsg(message.NonConfirmable, codes.Content, tok, resolveMid(f[2]), []byte(f[4]), obsOpt)
+					}
+					if err := cc.Process(nil, d); err != nil {
+						panic(err)
+					}
+				case f[0] == "blkp" && len(f) == 4:
+					tok := parseTok(f[1])
+					m0, _ := strconv.Atoi(f[2])
+					body := []byte(f[3])
+					for len(body) < 17 {
+						body = append(body, '.')
+					}
+					d0 := udpMsg(message.NonConfirmable, codes.Content, tok, int32(m0), body[:16], blockOpt(message.Block2, blockwise.SZX16, 0, true))
+					if err := cc.Process(nil, d0); err != nil {
+						panic(err)
+					}
+					synctest.Wait()
+					w.lastBlkPath = ""
+					w.carryTx = append(w.carryTx, takeTx()...)
+					rest := body[16:]
+					if w.lastBlkPath == "" {
+						break // no request for the next block: nothing to serve
+					}
+					if w.lastBlkPath != "/r" {
+						rest = []byte("from-" + strings.TrimPrefix(w.lastBlkPath, "/"))
+					}
+					d1 := udpMsg(message.NonConfirmable, codes.Content, tok, int32(m0+1), rest, blockOpt(message.Block2, blockwise.SZX16, 1, false))
+					if err := cc.Process(nil, d1); err != nil {
+						panic(err)
+					}
 				case (f[0] == "blk" || f[0] == "blkc") && len(f) == 5:
 					tok := parseTok(f[1])
 					m0, _ := strconv.Atoi(f[2])
@@ -430,10 +541,11 @@ func runUDP(t *testing.T, bw bool, ops []string) (out string) {
 				continue
 			}
 			synctest.Wait()
-			tx := takeTx()
+			tx := append(w.carryTx, takeTx()...)
+			w.carryTx = nil
 			if lastDo >= 0 {
 				// the request datagram written since the last observation point that carries this caller's token
-				if mid, ok := w.mids[callerTok[lastDo]]; ok && f[0] == "do" {
+				if mid, ok := w.mids[callerTok[lastDo]]; ok && (f[0] == "do" || f[0] == "obs") {
 					callerMid[lastDo] = mid
 				}
 			}
